@@ -7,7 +7,7 @@ SEQ = lambda prof, q, t: {"quick": [("seq", {"profile": prof, "count": q})],
                           "thorough": [("seq", {"profile": prof, "count": t}), ("seq", {"profile": "ALL", "count": t // 4})]}
 
 PROPS = {
-    "C01": {"suites": {"quick": SEQ("C01", 1500, 60000)["quick"] + [("seq", {"profile": "C20", "count": 600}), ("conn", {"profile": "C11", "count": 6, "tier": "quick"})], "thorough": SEQ("C01", 1500, 60000)["thorough"] + [("seq", {"profile": "C20", "count": 30000}), ("conn", {"profile": "C11", "count": 100, "tier": "thorough"})]}, "design": "6/C01", "projection": core.framing_projection()},
+    "C01": {"suites": {"quick": SEQ("C01", 1500, 60000)["quick"] + [("seq", {"profile": "C20", "count": 600}), ("conn", {"profile": "C11", "count": 12, "tier": "quick"})], "thorough": SEQ("C01", 1500, 60000)["thorough"] + [("seq", {"profile": "C20", "count": 30000}), ("conn", {"profile": "C11", "count": 100, "tier": "thorough"})]}, "design": "6/C01", "projection": core.framing_projection()},
     "C02": {"suites": {"quick": SEQ("C02", 1500, 60000)["quick"] + [("sched", {"profile": "C02", "count": 80, "per_case": 60}), ("stress", {"count": 800}), ("policy", {"profile": "C02", "count": 400})],
                        "thorough": SEQ("C02", 1500, 60000)["thorough"] + [("sched", {"profile": "C02", "count": 1500, "per_case": 2000}), ("stress", {"count": 20000}), ("policy", {"profile": "C02", "count": 20000})]}, "design": "6/C02", "projection": core.policy_projection()},
     "C05": {"suites": {"quick": SEQ("C05", 1500, 60000)["quick"] + [("sched", {"profile": "C05", "count": 80, "per_case": 60}), ("stress", {"count": 800}), ("config", {"tier": "quick"})],
